@@ -126,42 +126,65 @@ Proof. vm_compute. reflexivity. Qed.
 
 (* a frame of 64 KiB + 100 bytes: orig_len = (u16)len = 100, the program asks for +223 bytes, the
    helper has no such tailroom, the rewritten frame is passed up *)
+Lemma dhcp_big_frame_check :
+  match run (dhcp_fastpath_prog w_maps w_env) (w_discover 65291) with
+  | Done v f' => (v =? XDP_PASS) && negb (bytes_eqb f' (w_discover 65291))
+  | Fault => false
+  end = true.
+Proof. vm_compute. reflexivity. Qed.
 Lemma dhcp_big_frame_pass_modified :
   exists f', run (dhcp_fastpath_prog w_maps w_env) (w_discover 65291) = Done XDP_PASS f' /\ bytes_eqb f' (w_discover 65291) = false.
-Proof. eexists. split; vm_compute; reflexivity. Qed.
+Proof.
+  pose proof dhcp_big_frame_check as H.
+  destruct (run (dhcp_fastpath_prog w_maps w_env) (w_discover 65291)) as [v f'|]; [|discriminate].
+  apply andb_true_iff in H. destruct H as [Hv Hn]. apply N.eqb_eq in Hv. subst v.
+  exists f'. split; [reflexivity|]. apply negb_true_iff in Hn. exact Hn.
+Qed.
 
 Definition pass_untouched_dhcp_statement : Prop :=
   forall mp e f v f', run (dhcp_fastpath_prog mp e) f = Done v f' -> v = XDP_PASS -> f' = f.
-Theorem pass_untouched_dhcp_refuted : ~ pass_untouched_dhcp_statement.
+(* the refutations are stated for an abstract frame F first, so that nothing tries to normalise the
+   65 KiB witness outside vm_compute *)
+Lemma pass_untouched_dhcp_refuted_by mp e F f' :
+  run (dhcp_fastpath_prog mp e) F = Done XDP_PASS f' -> bytes_eqb f' F = false -> ~ pass_untouched_dhcp_statement.
 Proof.
-  intro H. destruct dhcp_big_frame_pass_modified as [f' [Hr Hne]].
-  rewrite (H _ _ _ _ _ Hr eq_refl) in Hne.
-  assert (bytes_eqb (w_discover 65291) (w_discover 65291) = true) by (apply bytes_eqb_eq; reflexivity).
-  congruence.
+  intros Hr Hne H. rewrite (H _ _ _ _ _ Hr eq_refl) in Hne.
+  assert (bytes_eqb F F = true) by (apply bytes_eqb_eq; reflexivity). congruence.
+Qed.
+Theorem pass_untouched_dhcp_refuted : ~ pass_untouched_dhcp_statement.
+Proof. destruct dhcp_big_frame_pass_modified as [f' [Hr Hne]]. exact (pass_untouched_dhcp_refuted_by _ _ _ _ Hr Hne). Qed.
+
+Lemma diff_from_nil_eq : forall (a b : frame) i, flen b = flen a -> diff_from i a b = [] -> b = a.
+Proof.
+  induction a as [|x a IH]; intros [|y b] i L E; cbn in *; try reflexivity; try (unfold flen in L; cbn in L; lia).
+  destruct (x =? y) eqn:Exy; [|discriminate]. apply N.eqb_eq in Exy. subst. f_equal. apply (IH b (i + 1)); auto.
+  unfold flen in *. cbn in L. lia.
+Qed.
+Lemma accept_pass_modified_rejected p mp F f' :
+  is_pass p XDP_PASS = true -> defined_verdict p XDP_PASS = true -> act p mp F = false -> bytes_eqb f' F = false ->
+  accept_obs p mp F (obs_of F (Done XDP_PASS f')) = inr 2.
+Proof.
+  intros Hp Hd Ha Hne. unfold accept_obs.
+  replace (o_fault (obs_of F (Done XDP_PASS f'))) with false by reflexivity.
+  replace (o_verdict (obs_of F (Done XDP_PASS f'))) with XDP_PASS by reflexivity.
+  rewrite Hd, Hp, Ha. cbn [negb andb].
+  destruct (unchanged F (obs_of F (Done XDP_PASS f'))) eqn:U; [|reflexivity].
+  exfalso. unfold unchanged in U. apply andb_true_iff in U. destruct U as [U1 U2].
+  change (o_len (obs_of F (Done XDP_PASS f'))) with (flen f') in U1.
+  change (o_diff (obs_of F (Done XDP_PASS f'))) with (diff_from 0 F f') in U2.
+  apply N.eqb_eq in U1. destruct (diff_from 0 F f') eqn:Ed; [|discriminate].
+  rewrite (diff_from_nil_eq _ _ _ U1 Ed) in Hne.
+  assert (bytes_eqb F F = true) by (apply bytes_eqb_eq; reflexivity). congruence.
+Qed.
+Lemma C07_statement_refuted_by mp e F f' :
+  run (dhcp_fastpath_prog mp e) F = Done XDP_PASS f' -> bytes_eqb f' F = false -> ~ C07_statement.
+Proof.
+  intros Hr Hne H. specialize (H P_DHCP mp e F eq_refl). unfold accepted in H.
+  change (prog_of P_DHCP mp e) with (dhcp_fastpath_prog mp e) in H. rewrite Hr in H.
+  rewrite accept_pass_modified_rejected in H; [discriminate|reflexivity|reflexivity|reflexivity|exact Hne].
 Qed.
 Theorem C07_statement_refuted : ~ C07_statement.
-Proof.
-  intro H. specialize (H P_DHCP w_maps w_env (w_discover 65291) eq_refl). unfold accepted in H.
-  change (prog_of P_DHCP w_maps w_env) with (dhcp_fastpath_prog w_maps w_env) in H.
-  destruct dhcp_big_frame_pass_modified as [f' [Hr Hne]]. rewrite Hr in H.
-  revert H. unfold accept_obs.
-  replace (o_fault (obs_of (w_discover 65291) (Done XDP_PASS f'))) with false by reflexivity.
-  replace (o_verdict (obs_of (w_discover 65291) (Done XDP_PASS f'))) with XDP_PASS by reflexivity.
-  replace (defined_verdict P_DHCP XDP_PASS) with true by reflexivity.
-  replace (is_pass P_DHCP XDP_PASS) with true by reflexivity.
-  replace (act P_DHCP w_maps (w_discover 65291)) with false by reflexivity. cbn [negb andb].
-  destruct (unchanged (w_discover 65291) _) eqn:U; [|discriminate].
-  exfalso. unfold unchanged in U. apply andb_true_iff in U. destruct U as [U1 U2].
-  cbn [obs_of o_len o_diff] in U1, U2.
-  assert (D : forall (a b : frame) i, flen b = flen a -> diff_from i a b = [] -> b = a).
-  { induction a as [|x a IH]; intros [|y b] i L E; cbn in *; try reflexivity; try (unfold flen in L; cbn in L; lia).
-    destruct (x =? y) eqn:Exy; [|discriminate]. apply N.eqb_eq in Exy. subst. f_equal. apply (IH b (i + 1)); auto.
-    unfold flen in *. cbn in L. lia. }
-  apply N.eqb_eq in U1. destruct (diff_from 0 (w_discover 65291) f') eqn:Ed; [|discriminate].
-  rewrite (D _ _ _ U1 Ed) in Hne.
-  assert (bytes_eqb (w_discover 65291) (w_discover 65291) = true) by (apply bytes_eqb_eq; reflexivity).
-  congruence.
-Qed.
+Proof. destruct dhcp_big_frame_pass_modified as [f' [Hr Hne]]. exact (C07_statement_refuted_by _ _ _ _ Hr Hne). Qed.
 
 (* ---- non-vacuity *)
 (* the monad does fault on an out-of-frame access *)
